@@ -32,6 +32,7 @@ META["text"] += " (R7 = C17.R3) the manifest's phantom batch holds max_cards - m
 META["text"] += ' (R8 = C06.R4) a pair is kept on the strength of the CVR listing the contest, so a phantom MVR is scored. (R9, N) check_cards validates and raises; it never stores into a contest.'
 META["text"] += ' R1 also: the per-contest count of real records is stored unconditionally at every call.'
 META["text"] += ' R4 also: the scoring functions keep no state between calls.'
+META["text"] += ' R6 also: Contest.cards and Contest.id are stored as given (an unspecified card bound stays None).'
 
 
 def run(chk):
